@@ -22,12 +22,12 @@ func init() {
 	Register(&PropDef{
 		ID:    "C16",
 		Title: "Parallel-request limits are never exceeded and never leak",
-		Rule: "up to 5 requests over 1-2 paths, limits 1-2 (total and per endpoint), events {arrive, cancel, finish, resume of a caller parked before its select} chosen by the tape; " +
+		Rule: "up to 5 requests over 1-2 paths, limits 1-2 (total and per endpoint), events {arrive, cancel, finish, resume of a caller parked before its select} chosen by the tape; S-LIMIT/connection: the limiter as wired into a real connection (UDP, DTLS shim, TCP, TLS shim) - Get, observe registration and the deregistration sent by Observation.Cancel, judged on the wire; " +
 			"non-trivial = at least one request had to queue; distinct = distinct event-log hash",
-		Scenarios: []Scenario{{Name: "M-LIMIT", Weight: 1, Run: c16Run}},
+		Scenarios: []Scenario{{Name: "M-LIMIT", Weight: 4, Run: c16Run}, {Name: "S-LIMIT/connection", Weight: 1, Run: c16ConnRun}},
 		Quick:     300000,
 		Thorough:  20000000,
-		Require:   []string{"cancel.queuedWaiter", "cancel.waiterBehindAnother", "request.queued"},
+		Require:   []string{"limit.cancelObservation", "cancel.queuedWaiter", "cancel.waiterBehindAnother", "request.queued"},
 		Assume: []string{
 			"the total (cross-path) limit is checked as a bound and for work conservation at the end only; admission order is checked per path, as the property states",
 			"a caller cancelled while parked directly before its select has two ready cases (granted, cancelled): both outcomes are accepted and the run is marked racy",
